@@ -11,7 +11,7 @@ def run(ctx):
                        'analysed path by path over symbolic operands: each big integer carries (real value as a polynomial over the operands, scale '
                        'dimension); integer +/- demand provably equal dimensions, * adds them, powers of ten and rescale primitives must go upward, '
                        'no lossy integer operation may feed the result, and the returned value must equal a (op) b as a polynomial normal form under '
-                       'the path\'s value facts. The argument is per path for ALL operand values and scales. NOT decided: that ten_to_the*(k) = 10^k, '
+                       'the path\'s value facts. The argument is per path for ALL operand values and scales. The power-of-ten helpers are exponent-typed: every loop-free branch of ten_to_the_uint / ten_to_the_u64 / ten_to_the returns exactly 10^k. NOT decided: the 19-digit-chunk loop of ten_to_the_uint (20 <= k < 590), '
                        'num-bigint\'s arithmetic, termination of the one self-recursive overload.')
     F = ctx.facts('default', 'rel')
     n, arms, sc = exact.operator_family(rep, F, TRAITS)
@@ -21,6 +21,8 @@ def run(ctx):
     rep.floor('distinct macro arms', arms, 60)
     rep.floor('derived exact operations', nd, 9)
     rep.floor('rescale primitives', nr, 4)
+    nph = exact.power_helpers(rep, F)
+    rep.floor('power-of-ten helpers', nph, 3)
     rep.extra['operator_functions'] = n
     rep.extra['macro_arms'] = arms
     rep.extra['shortcut_paths_verified'] = sc
